@@ -44,6 +44,17 @@ type typeCfg struct {
 	blocking []string
 }
 
+// extCfg declares a type OUTSIDE the extracted scope (a struct of another package or an interface)
+// whose methods may block on something the model does not see (a channel send to a subscriber, a
+// network operation, a call into the application): a call of a listed method on a receiver of that
+// type is emitted as `blockingCall "Type.method"`. `methods` = ["*"] means every method of the type
+// (for a struct: every method declared in its package; for an interface: its method set).
+type extCfg struct {
+	pkg     string
+	name    string
+	methods []string
+}
+
 // funcCfg selects a plain (top-level) function as an entry point; its skeleton is named after it.
 type funcCfg struct {
 	pkg  string
@@ -58,6 +69,7 @@ type group struct {
 	about     string // property the file is generated for (header comment)
 	types     []typeCfg
 	funcs     []funcCfg
+	external  []extCfg // possibly blocking operations of types outside the group
 	// fixed global acquisition order of the struct mutexes (outermost first); function-local mutexes
 	// are appended behind them in order of appearance.
 	lockOrder []string
@@ -88,8 +100,13 @@ var groups = []group{
 	// unexported list helpers are analysed inlined into their callers only. All sender lists share one
 	// skeleton mutex name (addressTransactions.mutex): criteria (1)/(2) then forbid holding two list
 	// mutexes at once, which is stronger than what the per-instance mutexes need.
-	// Calls into pkg/event (t.events.*) are outside this group: the emitter has its own mutex and is
-	// covered by the c20 group.
+	// What the pool calls OUTSIDE the package while it may hold its mutex is not extracted but kept as
+	// `blockingCall` (group field `external`): every method of the event emitter (Publish / Emit send
+	// on unbuffered subscriber channels with the emitter mutex held, every other method waits for
+	// that mutex; the emitter itself is covered by the c20 group), of the application interface ABI
+	// (VerifyTransaction: a call into the application process) and of the network interface
+	// p2pConnection (Publish / Broadcast / RequestFrom ...). Props/C14_Locks.lean states exactly which
+	// of them occur under the pool mutex (C14_gen_blocking_calls_under_pool_lock).
 	{name: "txpool", file: "SkeletonsTxPool.lean", namespace: "LiskVerif.Gen.SkeletonsTxPool", about: "C14 (transaction pool)",
 		types: []typeCfg{
 			{pkg: "pkg/txpool", name: "TransactionPool", file: "txpool.go",
@@ -98,6 +115,11 @@ var groups = []group{
 			{pkg: "pkg/txpool", name: "addressTransactions", file: "txlist.go",
 				guarded: map[string]string{"transactions": "mutex", "processables": "mutex"},
 				helpers: []string{"remove", "demoteAfter", "maxNonce"}},
+		},
+		external: []extCfg{
+			{pkg: "pkg/event", name: "EventEmitter", methods: []string{"*"}},
+			{pkg: "pkg/txpool", name: "ABI", methods: []string{"*"}},
+			{pkg: "pkg/txpool", name: "p2pConnection", methods: []string{"*"}},
 		},
 		lockOrder: []string{"TransactionPool.mutex", "addressTransactions.mutex"}},
 
@@ -161,6 +183,7 @@ type pkgInfo struct {
 	dir     string
 	files   map[string]*ast.File
 	structs map[string]*ast.StructType
+	ifaces  map[string]*ast.InterfaceType
 	methods map[string]*ast.FuncDecl // "Type.method"
 	funcs   map[string]*ast.FuncDecl
 	fileOf  map[*ast.FuncDecl]*ast.File
@@ -171,10 +194,11 @@ type gen struct {
 	repo        string
 	fset        *token.FileSet
 	pkgs        map[string]*pkgInfo
-	cfg         map[string]*typeCfg // type name -> config
-	scope       map[string]bool     // "Type.method" in scope
-	names       map[string]bool     // method names in scope
-	funcPkg     map[string]string   // plain function in scope -> its package directory
+	cfg         map[string]*typeCfg        // type name -> config
+	scope       map[string]bool            // "Type.method" in scope
+	names       map[string]bool            // method names in scope
+	funcPkg     map[string]string          // plain function in scope -> its package directory
+	ext         map[string]map[string]bool // "pkg\x00Type" -> possibly blocking methods of a type outside the group
 	localMus    []string
 	localGuards [][2]string // captured variable -> the local mutex locked around its first access
 	lits        []skeleton  // function literals called synchronously (sort.Slice comparators ...)
@@ -184,7 +208,7 @@ func (g *gen) loadPkg(dir string) *pkgInfo {
 	if p, ok := g.pkgs[dir]; ok {
 		return p
 	}
-	p := &pkgInfo{dir: dir, files: map[string]*ast.File{}, structs: map[string]*ast.StructType{}, methods: map[string]*ast.FuncDecl{},
+	p := &pkgInfo{dir: dir, files: map[string]*ast.File{}, structs: map[string]*ast.StructType{}, ifaces: map[string]*ast.InterfaceType{}, methods: map[string]*ast.FuncDecl{},
 		funcs: map[string]*ast.FuncDecl{}, fileOf: map[*ast.FuncDecl]*ast.File{}, fileOfS: map[string]*ast.File{}}
 	g.pkgs[dir] = p
 	matches, _ := filepath.Glob(filepath.Join(g.repo, dir, "*.go"))
@@ -207,6 +231,10 @@ func (g *gen) loadPkg(dir string) *pkgInfo {
 					if ts, ok := s.(*ast.TypeSpec); ok {
 						if st, ok := ts.Type.(*ast.StructType); ok {
 							p.structs[ts.Name.Name] = st
+							p.fileOfS[ts.Name.Name] = f
+						}
+						if it, ok := ts.Type.(*ast.InterfaceType); ok {
+							p.ifaces[ts.Name.Name] = it
 							p.fileOfS[ts.Name.Name] = f
 						}
 					}
@@ -926,6 +954,9 @@ func (c *fctx) call(x *ast.CallExpr) []action {
 			if cfg, ok := c.g.cfg[t.name]; ok && cfg.pkg == t.pkg && c.g.scope[key] {
 				return append(out, action{Op: "call", Arg: key})
 			}
+			if ms, ok := c.g.ext[t.pkg+"\x00"+t.name]; ok && ms[name] {
+				return append(out, action{Op: "blockingCall", Arg: key}) // possibly blocking operation of a type outside the group
+			}
 			return out // method of a type outside the configured scope
 		}
 		if t.valid {
@@ -1440,7 +1471,8 @@ func main() {
 func runGroup(repoDir string, gr *group, leanFile, jsonFile string) {
 	repo, leanOut, jsonOut := &repoDir, &leanFile, &jsonFile
 	types, lockOrder := gr.types, gr.lockOrder
-	g := &gen{repo: *repo, fset: token.NewFileSet(), pkgs: map[string]*pkgInfo{}, cfg: map[string]*typeCfg{}, scope: map[string]bool{}, names: map[string]bool{}, funcPkg: map[string]string{}}
+	g := &gen{repo: *repo, fset: token.NewFileSet(), pkgs: map[string]*pkgInfo{}, cfg: map[string]*typeCfg{}, scope: map[string]bool{}, names: map[string]bool{}, funcPkg: map[string]string{},
+		ext: map[string]map[string]bool{}}
 	for i := range types {
 		t := &types[i]
 		if _, dup := g.cfg[t.name]; dup {
@@ -1509,6 +1541,59 @@ func runGroup(repoDir string, gr *group, leanFile, jsonFile string) {
 			}
 		}
 		items = append(items, sel...)
+	}
+	// possibly blocking operations of types outside the group: the type and every listed method must
+	// exist (a rename must not turn the calls into silently dropped ones); the method names also count
+	// as "names in scope", so that a call of one on a receiver of unresolved type is an Unknown
+	for _, e := range gr.external {
+		p := g.loadPkg(e.pkg)
+		if _, dup := g.cfg[e.name]; dup {
+			fmt.Fprintf(os.Stderr, "skelgen: external type %s is also an extracted type\n", e.name)
+			os.Exit(1)
+		}
+		all := map[string]bool{}
+		if it, ok := p.ifaces[e.name]; ok {
+			for _, fl := range it.Methods.List {
+				if _, isFn := fl.Type.(*ast.FuncType); !isFn {
+					fmt.Fprintf(os.Stderr, "skelgen: external interface %s embeds another type (not supported)\n", e.name)
+					os.Exit(1)
+				}
+				for _, n := range fl.Names {
+					all[n.Name] = true
+				}
+			}
+		} else if _, ok := p.structs[e.name]; ok {
+			for k := range p.methods {
+				if strings.HasPrefix(k, e.name+".") {
+					all[strings.TrimPrefix(k, e.name+".")] = true
+				}
+			}
+		} else {
+			fmt.Fprintf(os.Stderr, "skelgen: external type %s not found in %s\n", e.name, e.pkg)
+			os.Exit(1)
+		}
+		ms := map[string]bool{}
+		for _, m := range e.methods {
+			if m == "*" {
+				for k := range all {
+					ms[k] = true
+				}
+				continue
+			}
+			if !all[m] {
+				fmt.Fprintf(os.Stderr, "skelgen: configured external method %s.%s not found\n", e.name, m)
+				os.Exit(1)
+			}
+			ms[m] = true
+		}
+		if len(ms) == 0 {
+			fmt.Fprintf(os.Stderr, "skelgen: external type %s has no method\n", e.name)
+			os.Exit(1)
+		}
+		g.ext[e.pkg+"\x00"+e.name] = ms
+		for m := range ms {
+			g.names[m] = true
+		}
 	}
 	for _, f := range gr.funcs {
 		p := g.loadPkg(f.pkg)
